@@ -336,7 +336,7 @@ package rosmar
 //@   let bf = args.Backfill != 18446744073709551615
 //@   let resume = args.Backfill == 1
 //@   ensures [C15:StartDCPFeed.resume-needs-prefix] resume && args.CheckpointPrefix == "" ==> result != nil && count("spawn") == 0 && count("call:enqueueBackfillEvents") == 0
-//@   ensures [C15:StartDCPFeed.resume-from] result == nil && resume ==> count("call:readCheckpoint") == 1 && callarg("enqueueBackfillEvents", 1) == callarg("readCheckpoint", 0).lastCas + 1
+//@   ensures [C15:StartDCPFeed.resume-from] result == nil && resume ==> count("call:readCheckpoint") == 1 && callarg("enqueueBackfillEvents", 1) == (callarg("readCheckpoint", 0).lastCas + 1) % 18446744073709551616
 //@   ensures [C09:StartDCPFeed.backfill-from] result == nil && bf && !resume ==> callarg("enqueueBackfillEvents", 1) == args.Backfill
 //@   ensures [C09:StartDCPFeed.keysonly]      result == nil && bf ==> callarg("enqueueBackfillEvents", 2) == args.KeysOnly && callarg("enqueueBackfillEvents", 0) == c
 //@   ensures [C09:StartDCPFeed.markers]       result == nil && bf ==> pushes()[0].opcode == 0 && pushes()[1].opcode == 1 && pushpos(0) < callpos("enqueueBackfillEvents") && callpos("enqueueBackfillEvents") < pushpos(1)
